@@ -257,6 +257,17 @@ def gen_input(rng, width):
                                              "use the pre-trained weights when the value is given and then the list.",
                                              "non-negative number of items per step."])
         tags.append("hyphen")
+    if ps and rng.random() < 0.15:
+        # tokens that end / begin in punctuation (suspended hyphens `left- or right-aligned`, `items;`, `(see`, a lone
+        # `-`), dense enough that at any width some wrapped line ends in one of them
+        for p in rng.sample(ps, rng.choice([1, 1, 2]) if len(ps) > 1 else 1):
+            if p.get("doc"):
+                p["doc"] = G.edge_prose(rng, max(6, w // 8), max(10, w // 3), density=rng.choice([0.2, 0.35, 0.5]),
+                                        kinds=EDGE_KINDS_TRANSPARENT)
+        if rng.random() < 0.3:
+            ir["doc"] = G.edge_prose(rng, max(4, w // 10), max(8, w // 4), terminal=rng.choice([".", ""]),
+                                     kinds=EDGE_KINDS_TRANSPARENT)
+        tags.append("edge-punct")
     if ps and rng.random() < 0.12:
         p = rng.choice(ps)
         p["typ"], members = blank_literal(rng)
@@ -271,18 +282,29 @@ def gen_input(rng, width):
 PROSE_LENGTHS = [(1, 4), (4, 10), (10, 20), (20, 40)]
 
 
-def gen_sweep_ir(rng):
+# the edge_tokens kinds drawn by this oracle (see the note in gen_sweep_ir)
+EDGE_KINDS_TRANSPARENT = G.EDGE_KINDS
+
+
+def gen_sweep_ir(rng, edge=False):
     """an IR for the dense width sweep: mostly typed parameters with type-consistent defaults (so that every emitter
-    that writes default sentences has some to write), prose of every length, ordinary / long / blank-in-quotes types"""
+    that writes default sentences has some to write), prose of every length, ordinary / long / blank-in-quotes types.
+    edge=True: the prose of every entry is long and dense in tokens that end / begin in punctuation (gen_text.edge_prose:
+    suspended hyphens, `word;`, `(word`, lone `-`), types are short: over the widths of the sweep every such token is
+    the last / first one of a wrapped line at some width"""
     used, params = set(), collections.OrderedDict()
     for _ in range(rng.randint(2, 4)):
         name = G.ident(rng)
         while name in used:
             name = G.ident(rng)
         used.add(name)
-        p = {"doc": G.clean_prose(rng, **dict(zip(("min_words", "max_words"), rng.choice(PROSE_LENGTHS)),
-                                              terminal=rng.choice([".", ".", ",", ""])))}
-        r = rng.random()
+        if edge:
+            p = {"doc": G.edge_prose(rng, 14, 45, density=rng.choice([0.25, 0.4, 0.5]),
+                                     terminal=rng.choice([".", ".", ""]), kinds=EDGE_KINDS_TRANSPARENT)}
+        else:
+            p = {"doc": G.clean_prose(rng, **dict(zip(("min_words", "max_words"), rng.choice(PROSE_LENGTHS)),
+                                                  terminal=rng.choice([".", ".", ",", ""])))}
+        r = rng.random() if not edge else 1.0
         if r < 0.35:
             p["typ"], members = blank_literal(rng)
             if rng.random() < 0.85:
@@ -310,8 +332,10 @@ def gen_sweep_ir(rng):
         ret = {"return_type": r_}
     doc = "\n".join(G.clean_prose(rng, **dict(zip(("min_words", "max_words"), rng.choice(PROSE_LENGTHS[:3]))),
                                   terminal=rng.choice([".", ""])) for _ in range(rng.choice([1, 1, 2])))
+    if edge and rng.random() < 0.5:
+        doc = G.edge_prose(rng, 10, 30, terminal=rng.choice([".", ""]), kinds=EDGE_KINDS_TRANSPARENT)
     ir = {"name": None, "type": "static", "doc": doc, "params": params, "returns": ret}
-    return json.loads(json.dumps(ir)), ["sweep"]
+    return json.loads(json.dumps(ir)), ["sweep"] + (["edge-punct"] if edge else [])
 
 
 def applicable(pair, ir):
@@ -445,7 +469,7 @@ def oracle(rng, tier):
         for _ in range(n):
             ir, tags = gen_input(rng, w)
             jobs[w].append((ir, tags, EMITTERS + [v for v in sorted(rng.sample(list(VARIANTS), 2)) if applicable(v, ir)]))
-    sweep = [gen_sweep_ir(rng) for _ in range(n_sweep)]
+    sweep = [gen_sweep_ir(rng) for _ in range(n_sweep)] + [gen_sweep_ir(rng, edge=True) for _ in range(max(2, n_sweep // 3))]
     for w in sweep_widths:
         jobs.setdefault(w, []).extend((ir, tags, [e for e in ALL_PAIRS if applicable(e, ir)]) for ir, tags in sweep)
     results = run_jobs({w: [{"ir": ir, "emitters": ems} for ir, _, ems in js] for w, js in jobs.items()})
@@ -469,7 +493,7 @@ def oracle(rng, tier):
         hist["%s:%s:%s" % (name, status, cls or "in-guard")] += 1
         hist["width:%s:%s" % (wl if stream == "random" else "sweep", status)] += 1
         for t in tags:
-            if t in ("blank-literal", "sweep"):
+            if t in ("blank-literal", "sweep", "edge-punct"):
                 hist["shape:%s:%s" % (t, status)] += 1
         if status == "harness-exception":
             failures.append({"case": {"width": w, "emitter": name, "ir": ir}, "what": what, "class": None})
